@@ -9,7 +9,7 @@ from . import nf_common, nfq
 
 MANIFEST = {
     "text": 'Pairing and dependence rules on rcdom: every function that mutates a children vector also writes the parent link of the affected children on the same paths (parent link <=> child list); every search loop that stores its candidate tests the candidate (not an unrelated value); text merging precedes node creation; plus equality of every rcdom function (TreeSink impl, Serialize, Drop, helpers) with its reviewed normal form. Child vectors are changed only by order-preserving operations and reparent_children appends (R20.5).',
-    "note": 'Decides R20.1-R20.5. Not decided: equality with an abstract DOM for arbitrary call sequences. Also decided: the deep clone feeds its LIFO work list reversed at every site (R20.6). Also decided: append_based_on_parent_node decides on \'has any parent\' only (R20.7). Round 6: selectedcontent search in tree order (R20.10, defect F25 fixed). Round 8: R20.11 the option -> nearest ancestor select walk examines every ancestor, the root-most included.',
+    "note": 'Decides R20.1-R20.5. Not decided: equality with an abstract DOM for arbitrary call sequences. Also decided: the deep clone feeds its LIFO work list reversed at every site (R20.6). Also decided: append_based_on_parent_node decides on \'has any parent\' only (R20.7). Round 6: selectedcontent search in tree order (R20.10, defect F25 fixed). Round 8: R20.11 the option -> nearest ancestor select walk examines every ancestor, the root-most included. R20.12: append / append_before_sibling / reparent_children as DOM operations (merge target, index, detach, parent, move).',
     "technique": 'pairing / def-use dependence rules over the syntax tree and function normal forms',
 }
 LEVEL = "other"
